@@ -4,6 +4,7 @@ import (
 	"fmt"
 	"math"
 	"strings"
+	"sync"
 
 	"gonum.org/v1/gonum/blas"
 	"gonum.org/v1/gonum/internal/verif/vlib"
@@ -70,11 +71,14 @@ func uploName(u blas.Uplo) string {
 
 // symSizes returns the (size, profile) plan shared by the symmetric groups.
 func symPlan(g *vlib.G, nq int) (small []int, profs []prof, stock []int) {
-	small = vlib.Ints(0, vlib.Pick(g, 6, 10))
-	profs = profSet(g.Thorough(), nq)
+	small = vlib.Ints(0, p3(g, 6, 9, 12))
+	profs = profSet(g, nq)
 	stock = []int{1, 2, 5, 31, 32, 33}
-	if g.Thorough() {
-		stock = append(stock, 74, 75, 76, 100)
+	if lvl(g) >= 1 {
+		stock = append(stock, 74, 75, 76)
+	}
+	if lvl(g) >= 2 {
+		stock = append(stock, 100, 150)
 	}
 	return
 }
@@ -92,7 +96,7 @@ func genDsyev(g *vlib.G) {
 			plan = append(plan, cfg{n, p, symFamilies})
 		}
 	}
-	stockFams := []family{symFamilies[0], symFamilies[1], symFamilies[2], symFamilies[3], symFamilies[6], symFamilies[7], symFamilies[8]}
+	stockFams := []family{symFamilies[0], symFamilies[1], symFamilies[2], symFamilies[3], symFamilies[6], symFamilies[7], symFamilies[8], symFamilies[10], symFamilies[11]}
 	for _, n := range stock {
 		plan = append(plan, cfg{n, stockProf, stockFams})
 	}
@@ -197,6 +201,16 @@ func runDsyev(t *vlib.T, n int, p prof, f family, uplo blas.Uplo, ldx int, lw st
 	}
 	t.Outcome(outcome)
 	t.Detail(map[string]any{"ilaenv": log.String()})
+	attributeIscale(t, f)
+}
+
+// attributeIscale tags a failure on the family whose tridiagonal form has a
+// tiny-norm block followed by a unit-norm block with finding
+// dsteqr-iscale-not-reset when the probe shows the tree has that defect.
+func attributeIscale(t *vlib.T, f family) {
+	if t.Failed() && f.name == "blocktiny" && dsteqrIscaleBroken() {
+		finding(t, "dsteqr-iscale-not-reset", "tiny-norm block followed by a unit-norm block: Dsteqr rescales the eigenvalues of the second block with the factors of the first")
+	}
 }
 
 // explicitQsytrd builds Q from the reflectors stored by Dsytrd/Dsytd2 exactly as documented.
@@ -262,7 +276,7 @@ func genDsytrd(g *vlib.G) {
 	var plan []cfg
 	for _, n := range small {
 		for _, p := range profs {
-			plan = append(plan, cfg{n, p, symFamilies[:8]})
+			plan = append(plan, cfg{n, p, symFamilies[:11]})
 		}
 	}
 	for _, n := range stock {
@@ -445,6 +459,7 @@ func runDsytrd(t *vlib.T, n int, p prof, f family, uplo blas.Uplo, ldx int, lw s
 	}
 	t.Outcome(fmt.Sprintf("trd=%s orgtr=%s %s", bs(trdBlocked), bs(orgBlocked), conv))
 	t.Detail(map[string]any{"ilaenv": log.String()})
+	attributeIscale(t, f)
 }
 
 // genDstScaled runs Dsterf and Dsteqr directly on tridiagonal matrices whose
@@ -452,7 +467,7 @@ func runDsytrd(t *vlib.T, n int, p prof, f family, uplo blas.Uplo, ldx int, lw s
 // rescale the active block, with d/e of exactly the required length and with
 // longer slices.
 func genDstScaled(g *vlib.G) {
-	for n := 1; n <= vlib.Pick(g, 6, 10); n++ {
+	for n := 1; n <= p3(g, 6, 10, 12); n++ {
 		for _, sc := range []int{-450, -300, 0, 400, 515} {
 			for _, extra := range []int{0, 40} {
 				for pat := 0; pat < 3; pat++ {
@@ -546,4 +561,268 @@ func runDstScaled(t *vlib.T, n, sc, extra, pat int) {
 		t.Nontrivial()
 	}
 	t.Outcome(fmt.Sprintf("rescaled=%v", sc < -405 || sc > 510))
+}
+
+// ---------------------------------------------------------------------------
+// Special tridiagonal matrices for Dsterf / Dsteqr.
+
+// tblock is one unreduced block of a tridiagonal matrix at unit scale together
+// with the exact power of two by which it is scaled in the input.
+type tblock struct {
+	name string
+	d, e []float64
+	exp  int
+}
+
+// tridiagBlock returns the named unit-scale block of order n.
+func tridiagBlock(name string, n int) tblock {
+	b := tblock{name: name, d: make([]float64, n), e: make([]float64, max(0, n-1))}
+	set := func(fd, fe func(i int) float64) {
+		for i := range b.d {
+			b.d[i] = fd(i)
+		}
+		for i := range b.e {
+			b.e[i] = fe(i)
+		}
+	}
+	c := func(v float64) func(int) float64 { return func(int) float64 { return v } }
+	switch name {
+	case "toep(0,1)": // constant zero diagonal: the first rotations of the QL/QR sweeps have cosine exactly 0
+		set(c(0), c(1))
+	case "toep(2,-1)":
+		set(c(2), c(-1))
+	case "toep(3,1)":
+		set(c(3), c(1))
+	case "toep(-1,2)":
+		set(c(-1), c(2))
+	case "graded-down":
+		set(func(i int) float64 { return math.Ldexp(3, -3*i) }, func(i int) float64 { return math.Ldexp(1, -3*i-1) })
+	case "graded-up":
+		set(func(i int) float64 { return math.Ldexp(3, 3*i-3*n) }, func(i int) float64 { return math.Ldexp(1, 3*i-3*n+1) })
+	case "repeated": // 2I plus a rank-one coupling: eigenvalue 2 repeated n-2 times in exact arithmetic is not tridiagonal-unreduced; use equal diagonal, equal tiny off-diagonal
+		set(c(2), c(0x1p-30))
+	case "kron21":
+		set(c(2), func(i int) float64 { return float64(1 - i%2) })
+	case "wilkinson":
+		set(func(i int) float64 { return math.Abs(float64(n-1)/2 - float64(i)) }, c(1))
+	case "clustered":
+		set(func(i int) float64 { return 1 + float64(i)*0x1p-40 }, c(0x1p-30))
+	case "int":
+		l := lcgFor(71, n, 0)
+		set(func(int) float64 { return float64(l.Small(3)) }, func(int) float64 { return float64(1 + l.Next()%2) })
+	default:
+		panic("harness: unknown tridiagonal block " + name)
+	}
+	return b
+}
+
+var tridiagNames = []string{"toep(0,1)", "toep(2,-1)", "toep(3,1)", "toep(-1,2)", "graded-down", "graded-up", "repeated", "kron21", "wilkinson", "clustered", "int"}
+
+// positive definite blocks (eigenvalues bounded away from zero relative to the
+// block norm): used when blocks of different scale are combined, so that the
+// sorted spectrum interleaves by scale without ambiguity.
+var tridiagPD = []string{"toep(3,1)", "toep(2,-1)", "graded-down"}
+
+func genDstSpecial(g *vlib.G) {
+	// one block, unit scale and the two scales that make the routines rescale
+	for n := 1; n <= p3(g, 8, 12, 20); n++ {
+		for _, name := range tridiagNames {
+			for _, exp := range []int{0, -450, 515} {
+				n, name, exp := n, name, exp
+				kase(g, fmt.Sprintf("Dsterf/Dsteqr %s n=%d scale=2^%d", name, n, exp), func(t *vlib.T) {
+					b := tridiagBlock(name, n)
+					b.exp = exp
+					runDstBlocks(t, []tblock{b})
+				})
+			}
+		}
+	}
+	// two and three blocks separated by zero off-diagonal entries, every ordered
+	// combination of {tiny, normal, huge} scales
+	exps := []int{-450, 0, 515}
+	for _, name := range tridiagPD {
+		for _, n1 := range p3(g, []int{2}, []int{1, 2, 4}, []int{1, 2, 3, 4, 7}) {
+			for _, n2 := range p3(g, []int{3}, []int{1, 3}, []int{1, 2, 3, 5}) {
+				for _, e1 := range exps {
+					for _, e2 := range exps {
+						name, n1, n2, e1, e2 := name, n1, n2, e1, e2
+						kase(g, fmt.Sprintf("Dsterf/Dsteqr split %s n=%d@2^%d + n=%d@2^%d", name, n1, e1, n2, e2), func(t *vlib.T) {
+							b1, b2 := tridiagBlock(name, n1), tridiagBlock("toep(3,1)", n2)
+							b1.exp, b2.exp = e1, e2
+							runDstBlocks(t, []tblock{b1, b2})
+						})
+						if n1 != 2 || lvl(g) == 0 {
+							continue
+						}
+						for _, e3 := range exps {
+							e3 := e3
+							kase(g, fmt.Sprintf("Dsterf/Dsteqr split %s n=%d@2^%d + n=%d@2^%d + n=2@2^%d", name, n1, e1, n2, e2, e3), func(t *vlib.T) {
+								b1, b2, b3 := tridiagBlock(name, n1), tridiagBlock("toep(3,1)", n2), tridiagBlock("toep(2,-1)", 2)
+								b1.exp, b2.exp, b3.exp = e1, e2, e3
+								runDstBlocks(t, []tblock{b1, b2, b3})
+							})
+						}
+					}
+				}
+			}
+		}
+	}
+}
+
+// runDstBlocks assembles the block-diagonal tridiagonal matrix, computes the
+// reference spectrum block by block (Jacobi at unit scale, scaled exactly) and
+// checks Dsterf and Dsteqr against it with a tolerance relative to the norm of
+// the block an eigenvalue belongs to.
+func runDstBlocks(t *vlib.T, blocks []tblock) {
+	n := 0
+	for _, b := range blocks {
+		n += len(b.d)
+	}
+	d0, e0 := make([]float64, 0, n), make([]float64, 0, n)
+	type ref struct{ val, tol float64 }
+	var refs []ref
+	owner := make([]int, 0, n) // block index of every row
+	mixed := false
+	for k, b := range blocks {
+		sc := math.Ldexp(1, b.exp)
+		if b.exp != blocks[0].exp {
+			mixed = true
+		}
+		if k > 0 {
+			e0 = append(e0, 0)
+		}
+		for _, v := range b.d {
+			d0 = append(d0, v*sc)
+			owner = append(owner, k)
+		}
+		for _, v := range b.e {
+			e0 = append(e0, v*sc)
+		}
+		unit := tridiag(b.d, b.e)
+		bn := fro(unit)
+		for _, w := range jacobiEig(unit) {
+			refs = append(refs, ref{w * sc, thresh * fmax(n) * eps * bn * sc})
+		}
+	}
+	// ascending reference; with mixed scales every block is positive definite, so
+	// the order is decided by exact comparisons of well separated numbers
+	for i := 1; i < len(refs); i++ {
+		for j := i; j > 0 && refs[j].val < refs[j-1].val; j-- {
+			refs[j], refs[j-1] = refs[j-1], refs[j]
+		}
+	}
+	if !mixed {
+		// one common scale: the usual bound relative to the whole matrix
+		var s float64
+		for _, b := range blocks {
+			u := fro(tridiag(b.d, b.e))
+			s += u * u
+		}
+		for i := range refs {
+			refs[i].tol = thresh * fmax(n) * eps * math.Sqrt(s) * math.Ldexp(1, blocks[0].exp)
+		}
+	}
+	f0 := nFindings
+	checkVals := func(name string, w []float64) (good bool) {
+		if hasNaN(w) {
+			t.Failf("%s: NaN eigenvalue %v", name, w)
+			return false
+		}
+		good = true
+		if !ascending(w) {
+			t.Failf("%s: eigenvalues not ascending: %v", name, w)
+			good = false
+		}
+		for i := range w {
+			if !(math.Abs(w[i]-refs[i].val) <= refs[i].tol) {
+				t.Failf("%s: eigenvalue %d = %v, want %v within %.3g (block-relative)", name, i, w[i], refs[i].val, refs[i].tol)
+				return false
+			}
+			if refs[i].tol > 0 {
+				t.Max("worst_ratio_milli:dst-special-w", int64(1000*thresh*math.Abs(w[i]-refs[i].val)/refs[i].tol))
+			}
+		}
+		return good
+	}
+	{
+		d, e := append([]float64(nil), d0...), append([]float64(nil), e0...)
+		var ok bool
+		if !call(t, "Dsterf", func() { ok = impl.Dsterf(n, d, e) }) {
+			return
+		}
+		if !ok {
+			t.Failf("Dsterf did not converge")
+		} else {
+			checkVals("Dsterf", d)
+		}
+	}
+	for _, compz := range []lapack.EVComp{lapack.EVCompNone, lapack.EVTridiag} {
+		name := fmt.Sprintf("Dsteqr(%c)", compz)
+		d, e := append([]float64(nil), d0...), append([]float64(nil), e0...)
+		var z *S
+		var zd []float64
+		ldz := 1
+		var wk []float64
+		if compz == lapack.EVTridiag {
+			ldz = n + 1
+			z = newS(n, n, ldz).snap()
+			zd, wk = z.d, poisoned(max(1, 2*n-2))
+		}
+		var ok bool
+		if !call(t, name, func() { ok = impl.Dsteqr(compz, n, d, e, zd, ldz, wk) }) {
+			return
+		}
+		if !ok {
+			t.Failf("%s did not converge", name)
+			continue
+		}
+		if good := checkVals(name, d); z != nil && good {
+			zm := z.toM()
+			chk(t, "dst-special-ZtZ-I", ratio(orthCols(zm), fmax(n), 1), thresh, name)
+			// column-wise residual, relative to the norm of the eigenvalue's block
+			tm := tridiag(d0, e0)
+			for j := 0; j < n; j++ {
+				var r2 float64
+				for i := 0; i < n; i++ {
+					var s float64
+					for k := max(0, i-1); k <= min(n-1, i+1); k++ {
+						s += tm.at(i, k) * zm.at(k, j)
+					}
+					s -= d[j] * zm.at(i, j)
+					r2 += (s / refs[j].tol) * (s / refs[j].tol)
+				}
+				if !(math.Sqrt(r2) <= 1) {
+					t.Failf("%s: |T z - lambda z| for eigenvalue %d (%v) is %.3g times the block-relative bound", name, j, d[j], math.Sqrt(r2))
+					break
+				}
+			}
+		}
+	}
+	_ = owner
+	// Dsteqr keeps the "rescaled" state of an earlier block (finding dsteqr-iscale-not-reset)
+	if t.Failed() && nFindings == f0 && mixed && dsteqrIscaleBroken() {
+		finding(t, "dsteqr-iscale-not-reset", "blocks of different scale in one call: Dsteqr applies the undo-scaling of an earlier rescaled block to a later block that was not rescaled")
+	}
+	if n >= 2 {
+		t.Nontrivial()
+	}
+	t.Outcome(fmt.Sprintf("blocks=%d mixed=%v", len(blocks), mixed))
+}
+
+var (
+	iscaleOnce   sync.Once
+	iscaleBroken bool
+)
+
+// dsteqrIscaleBroken probes the tree for finding dsteqr-iscale-not-reset with
+// the smallest input: a 2×2 block of norm 2^-450 followed by a 2×2 block of norm 1.
+func dsteqrIscaleBroken() bool {
+	iscaleOnce.Do(func() {
+		s := math.Ldexp(1, -450)
+		d := []float64{3 * s, 3 * s, 3, 3}
+		e := []float64{s, 0, 1}
+		msg := catch(func() { impl.Dsteqr(lapack.EVCompNone, 4, d, e, nil, 1, nil) })
+		iscaleBroken = msg != "" || !(math.Abs(d[3]-4) < 1e-9 && math.Abs(d[2]-2) < 1e-9)
+	})
+	return iscaleBroken
 }
